@@ -5,12 +5,12 @@
 EXTENDS AnkoContainers, Json
 
 Trace == ndJsonDeserialize("cont_trace.ndjson")
-Vars == {"a", "b", "c", "m", "n", "ta", "st"}
+Vars == {"a", "b", "c", "m", "n", "ta", "st", "s", "t", "tm"}
 SliceVars == {"a", "b", "c", "ta"}
 
 VARIABLES st, l, skip
 vars == <<st, l, skip>>
-St0 == [arrs |-> <<>>, maps |-> <<>>, structs |-> <<>>, vars |-> [n \in Vars |-> NilV]]
+St0 == [arrs |-> <<>>, maps |-> <<>>, structs |-> <<>>, strs |-> <<>>, vars |-> [n \in Vars |-> NilV]]
 Init == st = St0 /\ l = 1 /\ skip = FALSE /\ TLCSet(1, 1)
 
 SameVal(x, y) == x.t = y.t /\ x.i = y.i /\ x.s = y.s
@@ -20,7 +20,7 @@ PostOK(s, e) ==
         /\ p.t = g.t /\ p.len = g.len /\ p.cap = g.cap
         /\ Len(p.elems) = Len(g.elems) /\ \A i \in 1..Len(p.elems) : SameVal(p.elems[i], g.elems[i])
   /\ \A i \in 1..Len(e.share) : LET h == e.share[i]  sp == Share(s, h.n, h.m) IN sp.same = h.same /\ (h.same => sp.d = h.d)
-  /\ \A n \in {"m", "n"} : s.vars[n].t = "map" =>
+  /\ \A n \in {"m", "n", "tm"} : s.vars[n].t \in {"map", "tmap"} =>
         LET mm == s.maps[s.vars[n].r] IN
         /\ Len(mm) = Len(e.maps[n])
         /\ \A i \in 1..Len(mm) : \E j \in 1..Len(e.maps[n]) : SameVal(mm[i][1], e.maps[n][j][1]) /\ SameVal(mm[i][2], e.maps[n][j][2])
@@ -36,7 +36,7 @@ TStep ==
           ELSE \E c \in cands :
                  /\ c.res.k = e.res.k
                  /\ (c.res.k = "val" => SameVal(c.res.v, e.res.v))
-                 /\ PostOK(c.st, e)
+                 /\ (IF "nopost" \in DOMAIN e THEN TRUE ELSE PostOK(c.st, e))      \* IF, not \/: TLC explores both disjuncts of an action
                  /\ st' = c.st /\ skip' = FALSE
   /\ l' = l + 1
 Spec == Init /\ [][TStep]_vars
